@@ -327,6 +327,7 @@ package flags
 //@   let takes := argument == nil && canarg && len(s.args) > 0
 //@   let tok := s.args[0]
 //@   loop 1 invariant ncalls(Option.Set) == old(ncalls(Option.Set)) + idx_1 && same(s.args, old(s.args)) && s.arg == old(s.arg)
+//@   loop 1 invariant[C06,C05] option.isSet && option.preventDefault
 //@   loop 1 invariant forall(k, 0, idx_1, callarg(Option.Set, old(ncalls(Option.Set)) + k, 0) == option && callarg(Option.Set, old(ncalls(Option.Set)) + k, 1) != nil && *callarg(Option.Set, old(ncalls(Option.Set)) + k, 1) == option.OptionalValue[k])
 //@   loop 1 invariant idx_1 > 0 ==> err == nil
 //@   loop 1 invariant nfails(convert) == old(nfails(convert)) && !isTyped(err, ErrUnknownFlag)
@@ -343,6 +344,9 @@ package flags
 //@   ensures[C01,C02] ca && argument == nil && !takes ==> same(s.args, old(s.args)) && s.arg == old(s.arg)
 //@   ensures[C01,C02] ca && argument == nil && !takes && option.OptionalArgument ==> ncalls(Option.Set) <= n0 + len(option.OptionalValue) && (err == nil ==> ncalls(Option.Set) == n0 + len(option.OptionalValue))
 //@   ensures[C01,C02] ca && argument == nil && !takes && option.OptionalArgument ==> forall(k, 0, ncalls(Option.Set) - n0, callarg(Option.Set, n0 + k, 0) == option && callarg(Option.Set, n0 + k, 1) != nil && *callarg(Option.Set, n0 + k, 1) == option.OptionalValue[k])
+// (C06, C05: an occurrence that is accepted counts as "supplied on the command line", whatever its spelling -
+// a bare occurrence of an option with an optional argument and no optional-value included)
+//@   ensures[C06,C05] err == nil ==> option.isSet && option.preventDefault
 //@   ensures[C02,C04] ca && argument == nil && !takes && !option.OptionalArgument ==> isTyped(err, ErrExpectedArgument) && ncalls(Option.Set) == n0
 //@   ensures[C04] err != nil ==> is(err, *Error) && as(err, *Error) != nil
 //@   ensures[C03] same(s.args, old(s.args)) || (len(old(s.args)) > 0 && same(s.args, old(s.args)[1:]))
@@ -611,7 +615,7 @@ package flags
 
 // The diagnosis of a missing or unknown command (C20, C08): the candidates
 // are exactly the sorted visible subcommands of the innermost command; the
-// nearest one is suggested iff its distance is below half its length (the
+// nearest one is suggested iff its distance is below half its length IN CHARACTERS - the unit of the distance - (the
 // float32 quotient is modelled over the reals), otherwise all are enumerated.
 // (C15: the candidate list handed to closestChoice, which keeps the first of
 // several nearest ones, is that sorted list in its order - no map order.)
@@ -629,10 +633,10 @@ package flags
 //@   ensures[C20] len(p.retargs) == 0 ==> ncalls(closestChoice) == cc0
 //@   ensures[C20,C15] len(p.retargs) != 0 ==> ncalls(closestChoice) == cc0 + 1 && callarg(closestChoice, cc0, 0) == p.retargs[0] && len(callarg(closestChoice, cc0, 1)) == len(callres(Command.sortedVisibleCommands, sv0, 0))
 //@   ensures[C20,C15] len(p.retargs) != 0 ==> forall(i, 0, len(callres(Command.sortedVisibleCommands, sv0, 0)), callarg(closestChoice, cc0, 1)[i] == callres(Command.sortedVisibleCommands, sv0, 0)[i].Name)
-//@   ensures[C20] len(p.retargs) != 0 && 2*callres(closestChoice, cc0, 1) < len(callres(closestChoice, cc0, 0)) ==> as(err, *Error).Message == "Unknown command `" + p.retargs[0] + "', did you mean `" + callres(closestChoice, cc0, 0) + "'?"
-//@   ensures[C20] len(p.retargs) != 0 && 2*callres(closestChoice, cc0, 1) >= len(callres(closestChoice, cc0, 0)) && len(callres(Command.sortedVisibleCommands, sv0, 0)) > 1 ==> as(err, *Error).Message == "Unknown command `" + p.retargs[0] + "'. Please specify one command of: " + strings.Join(callarg(closestChoice, cc0, 1)[:len(callarg(closestChoice, cc0, 1))-1], ", ") + " or " + callarg(closestChoice, cc0, 1)[len(callarg(closestChoice, cc0, 1))-1]
-//@   ensures[C20] len(p.retargs) != 0 && 2*callres(closestChoice, cc0, 1) >= len(callres(closestChoice, cc0, 0)) && len(callres(Command.sortedVisibleCommands, sv0, 0)) == 1 ==> as(err, *Error).Message == "Unknown command `" + p.retargs[0] + "'. You should use the " + callres(Command.sortedVisibleCommands, sv0, 0)[0].Name + " command"
-//@   ensures[C20] len(p.retargs) != 0 && 2*callres(closestChoice, cc0, 1) >= len(callres(closestChoice, cc0, 0)) && len(callres(Command.sortedVisibleCommands, sv0, 0)) == 0 ==> as(err, *Error).Message == "Unknown command `" + p.retargs[0] + "'"
+//@   ensures[C20] len(p.retargs) != 0 && 2*callres(closestChoice, cc0, 1) < utf8.RuneCountInString(callres(closestChoice, cc0, 0)) ==> as(err, *Error).Message == "Unknown command `" + p.retargs[0] + "', did you mean `" + callres(closestChoice, cc0, 0) + "'?"
+//@   ensures[C20] len(p.retargs) != 0 && 2*callres(closestChoice, cc0, 1) >= utf8.RuneCountInString(callres(closestChoice, cc0, 0)) && len(callres(Command.sortedVisibleCommands, sv0, 0)) > 1 ==> as(err, *Error).Message == "Unknown command `" + p.retargs[0] + "'. Please specify one command of: " + strings.Join(callarg(closestChoice, cc0, 1)[:len(callarg(closestChoice, cc0, 1))-1], ", ") + " or " + callarg(closestChoice, cc0, 1)[len(callarg(closestChoice, cc0, 1))-1]
+//@   ensures[C20] len(p.retargs) != 0 && 2*callres(closestChoice, cc0, 1) >= utf8.RuneCountInString(callres(closestChoice, cc0, 0)) && len(callres(Command.sortedVisibleCommands, sv0, 0)) == 1 ==> as(err, *Error).Message == "Unknown command `" + p.retargs[0] + "'. You should use the " + callres(Command.sortedVisibleCommands, sv0, 0)[0].Name + " command"
+//@   ensures[C20] len(p.retargs) != 0 && 2*callres(closestChoice, cc0, 1) >= utf8.RuneCountInString(callres(closestChoice, cc0, 0)) && len(callres(Command.sortedVisibleCommands, sv0, 0)) == 0 ==> as(err, *Error).Message == "Unknown command `" + p.retargs[0] + "'"
 //@   ensures[C20] len(p.retargs) == 0 && len(callres(Command.sortedVisibleCommands, sv0, 0)) == 1 ==> as(err, *Error).Message == "Please specify the " + callres(Command.sortedVisibleCommands, sv0, 0)[0].Name + " command"
 //@   ensures[C20] len(p.retargs) == 0 && len(callres(Command.sortedVisibleCommands, sv0, 0)) == 0 ==> as(err, *Error).Message == ""
 //@   assigns nothing
@@ -841,6 +845,7 @@ package flags
 //@   pure
 //@   ensures len(r) >= 1
 //@   ensures sep == "\n" ==> nwd(s) == joinN(r, len(r))
+//@   ensures sep != "" ==> forall(i, 0, len(r), !contains(r[i], sep))
 //@ assumed func os.LookupEnv(key string) (value string, ok bool)
 //@   pure
 
@@ -1868,6 +1873,8 @@ package flags
 //@ assumed func fmt.Stringer.String(s fmt.Stringer) (r string)
 //@   pure
 
+// the base numbers are written in: the tag's base where strconv can format with it, else 10 (base 0 = "taken from the prefix" reads decimal text back)
+//@ pure func fmtBase(b int) int = ite(2 <= b && b <= 36, b, 10)
 //@ func convertToString(val reflect.Value, options multiTag) (r string, err error)
 //@   props C12 C15 C11 C04
 //@   traced
@@ -1880,8 +1887,8 @@ package flags
 //@   loop 3 invariant[C15] forall(a, 0, len(keyitems), forall(b, a, len(keyitems), keyitems[a] <= keyitems[b]))
 //@   ensures[C12] plain && k == reflect.String ==> r == val.String() && err == nil
 //@   ensures[C12] plain && k == reflect.Bool ==> r == ite(val.Bool(), "true", "false") && err == nil
-//@   ensures[C12,C11] plain && isIntKind(k) && snd(getBase(options, 10)) == nil ==> r == strconv.FormatInt(val.Int(), fst(getBase(options, 10))) && err == nil
-//@   ensures[C12,C11] plain && isUintKind(k) && snd(getBase(options, 10)) == nil ==> r == strconv.FormatUint(val.Uint(), fst(getBase(options, 10))) && err == nil
+//@   ensures[C12,C11] plain && isIntKind(k) && snd(getBase(options, 10)) == nil ==> r == strconv.FormatInt(val.Int(), fmtBase(fst(getBase(options, 10)))) && err == nil
+//@   ensures[C12,C11] plain && isUintKind(k) && snd(getBase(options, 10)) == nil ==> r == strconv.FormatUint(val.Uint(), fmtBase(fst(getBase(options, 10)))) && err == nil
 //@   ensures[C12,C11] plain && (k == reflect.Float32 || k == reflect.Float64) ==> r == strconv.FormatFloat(val.Float(), 'g', -1, val.Type().Bits()) && err == nil
 //@   ensures[C12,C11] plain && (isIntKind(k) || isUintKind(k)) && snd(getBase(options, 10)) != nil ==> r == "" && err == snd(getBase(options, 10))
 //@   ensures[C12] plain && k == reflect.Slice && val.Len() == 0 ==> r == "" && err == nil
@@ -1898,10 +1905,12 @@ package flags
 //@ func writeGroupIni(cmd *Command, group *Group, namespace string, writer io.Writer, options IniOptions)
 //@   props C12 C15 C04
 //@   requires cmd != nil && group != nil
-//@   loop 2 invariant 0 <= idx
-//@   loop 2 decreases val.Len() - idx
-//@   loop 3 invariant !isnil(kkmap) && len(keys) == len(mkeys)
-//@   loop 4 invariant[C15] forall(a, 0, len(keys), forall(b, a, len(keys), keys[a] <= keys[b]))
+// (what is written for a description is a comment: every line of it starts with "; ")
+//@   at[C12] call fmt.Fprintf "; %s\n": !contains(arg(2), "\n")
+//@   loop 3 invariant 0 <= idx
+//@   loop 3 decreases val.Len() - idx
+//@   loop 4 invariant !isnil(kkmap) && len(keys) == len(mkeys)
+//@   loop 5 invariant[C15] forall(a, 0, len(keys), forall(b, a, len(keys), keys[a] <= keys[b]))
 //@   at[C12] call writeOption #1: !option.Hidden && !option.isFunc() && len(option.tag.Get("no-ini")) == 0 && kind == option.value.Type().Elem().Kind()
 //@   at[C12] call writeOption #2: !option.Hidden && !option.isFunc() && len(option.tag.Get("no-ini")) == 0 && kind == option.value.Type().Elem().Kind()
 //@   at[C12] call writeOption #3: !option.Hidden && !option.isFunc() && len(option.tag.Get("no-ini")) == 0 && kind == option.value.Type().Elem().Kind()
@@ -1910,10 +1919,13 @@ package flags
 
 // Library facts (trusted): the strconv parsers invert the strconv formatters
 // for the same base, for values that fit the width.
+// (FormatInt / FormatUint panic for a base outside 2..36)
 //@ assumed func strconv.FormatInt(i int64, base int) (r string)
 //@   pure
+//@   requires 2 <= base && base <= 36
 //@ assumed func strconv.FormatUint(i uint64, base int) (r string)
 //@   pure
+//@   requires 2 <= base && base <= 36
 //@ axiom manual parse_format_int: forall x int64, b int, bits int :: 2 <= b && b <= 36 ==> snd(strconv.ParseInt(strconv.FormatInt(x, b), b, bits)) == nil ==> fst(strconv.ParseInt(strconv.FormatInt(x, b), b, bits)) == x
 //@ axiom manual parse_format_uint: forall x uint64, b int, bits int :: 2 <= b && b <= 36 ==> snd(strconv.ParseUint(strconv.FormatUint(x, b), b, bits)) == nil ==> fst(strconv.ParseUint(strconv.FormatUint(x, b), b, bits)) == x
 // (The round trip of a numeric option is the composition of two contracts and
@@ -2053,22 +2065,26 @@ package flags
 //@   ensures err == nil ==> r != nil && r != c && r.Group != nil && r.Group != c.Group
 //@   assigns Command.commands
 //@ assumed func (g *Group) scanSubGroupHandler(realval reflect.Value, sfield *reflect.StructField) (ok bool, err error)
+// number of exported fields among the first n fields of a struct type: one positional argument each, in declaration order
+//@ pure func nExp(t reflect.Type, n int) int = ite(n <= 0, 0, nExp(t, n-1) + ite(t.Field(n-1).PkgPath == "", 1, 0))
 //@ func (c *Command) scanSubcommandHandler_closure1(parentg *Group, realval reflect.Value, sfield *reflect.StructField) (ok bool, err error)
 //@   props C19 C04 C06 C10 C08 C09
 //@   requires c != nil && parentg != nil && sfield != nil
 //@   loop 1 invariant[C10] forall(J, 0, len(old(c.args)), c.args[J] == old(c.args)[J])
 //@   requires forall(J, 0, len(c.args), allocated(c.args[J]))
 //@   loop 1 invariant[C10] forall(J, 0, len(c.args), allocated(c.args[J]))
-//@   loop 1 invariant[C10] forall(J, 0, i, c.args[len(old(c.args)) + J] != nil)
-//@   loop 1 invariant[C10] forall(J, 0, i, c.args[len(old(c.args)) + J].value == realval.Field(J))
+//@   loop 1 invariant[C10] forall(J, len(old(c.args)), len(c.args), c.args[J] != nil)
 //@   at[C06] check append #1: m.Get("required") != "" && len(strings.SplitN(m.Get("required"), "-", 2)) > 1 ==> arg.Required == ite(snd(strconv.ParseInt(strings.SplitN(m.Get("required"), "-", 2)[0], 10, 32)) == nil, int(fst(strconv.ParseInt(strings.SplitN(m.Get("required"), "-", 2)[0], 10, 32))), 1) && arg.RequiredMaximum == ite(snd(strconv.ParseInt(strings.SplitN(m.Get("required"), "-", 2)[1], 10, 32)) == nil, int(fst(strconv.ParseInt(strings.SplitN(m.Get("required"), "-", 2)[1], 10, 32))), -1)
 //@   at[C06] check append #1: m.Get("required") != "" && len(strings.SplitN(m.Get("required"), "-", 2)) <= 1 ==> arg.Required == ite(snd(strconv.ParseInt(m.Get("required"), 10, 32)) == nil, int(fst(strconv.ParseInt(m.Get("required"), 10, 32))), 1) && arg.RequiredMaximum == -1
 //@   ensures[C10] forall(J, 0, len(old(c.args)), c.args[J] == old(c.args)[J])
-//@   loop 1 invariant 0 <= i && (old(c.ArgsRequired) ==> c.ArgsRequired) && (i > 0 && len(mtag.Get("required")) != 0 ==> c.ArgsRequired) && len(c.args) == len(old(c.args)) + i
+//@   loop 1 invariant unfold(nExp(stype, i+1)) && unfold(nExp(stype, i)) && unfold(nExp(stype, 0)) && 0 <= i && nExp(stype, i) >= 0 && len(c.args) == len(old(c.args)) + nExp(stype, i)
+//@   loop 1 invariant (old(c.ArgsRequired) ==> c.ArgsRequired) && (len(c.args) > len(old(c.args)) && len(mtag.Get("required")) != 0 ==> c.ArgsRequired)
 //@   loop 1 decreases stype.NumField() - i
 // (attributes are only ever read from a tag that was scanned without error - the field's own tag, not just the enclosing one)
+// (only exported fields become positional arguments: reflection cannot store into the others - it panics)
+//@   at[C19,C04] call append #1: field.PkgPath == ""
 //@   at[C19] call multiTag.Get "positional-arg-name": tagErr(m.value) == nil && tagErr(mtag.value) == nil
-//@   at[C19] call append #1: arg != nil && arg.Name == ite(len(m.Get("positional-arg-name")) == 0, field.Name, m.Get("positional-arg-name")) && arg.Description == m.Get("description") && arg.value == realval.Field(i)
+//@   at[C19,C10] call append #1: arg != nil && arg.Name == ite(len(m.Get("positional-arg-name")) == 0, field.Name, m.Get("positional-arg-name")) && arg.Description == m.Get("description") && arg.value == realval.Field(i)
 //@   at[C19] call append #1: (m.Get("required") == "" ==> arg.Required == -1 && arg.RequiredMaximum == -1)
 // (a command:"..." field: the new command gets the tag's name and descriptions; whatever else the tag says
 // - hidden, subcommands-optional, aliases - lands on the NEW command: the attributes of the command being
